@@ -73,6 +73,10 @@ theorem decode_eq_decodeA (bs : List UInt8) :
 
 
 
+/-- the decoder looks at no more than the first four bytes of its window (and at whether 2, 3, 4 are there) -/
+theorem decode_take4 (bs : List UInt8) : decode (bs.take 4) = decode bs := by
+  rcases bs with _ | ⟨a, _ | ⟨b, _ | ⟨c, _ | ⟨d, r⟩⟩⟩⟩ <;> simp [decode, byteAt]
+
 theorem prefix1 (x : UInt8) (bs : List UInt8) :
     [x] <+: bs ↔ 1 ≤ bs.length ∧ x.toNat = byteAt bs 0 := by
   rcases bs with _ | ⟨a, r⟩ <;> simp [byteAt, UInt8.toNat_inj]
